@@ -193,6 +193,9 @@ func (n *BitcoinNode) handleHeadersVerify(ctx context.Context, header *wire.Mess
 
 	if !n.HandshakeIsComplete() {
 		logger.Info(ctx, "Discarding headers message")
+		if err := DiscardInput(r, header.Length); err != nil {
+			return errors.Wrap(err, "discard")
+		}
 		return nil
 	}
 
